@@ -4,8 +4,14 @@ Implementation: codebasin.finder.find (fresh Platform per database entry), codeb
                 codebasin.config.load_database, `-p` filtering in codebasin.__main__._main and
                 codebasin.tree._tree (run in-process through the real entry points, and as
                 subprocesses for a sample).
-Model (Lean):   CbiVerif.FindInst.findI = FindFold.findG (analyseEntry fs) — driver op "c08find"
-                (reply: model, spec = stateless union, pp = the state-threading port PP.find).
+Model (Lean):   driver op "c08find":
+                  cached = CbiVerif.FindCache.findC (semC fs): the total, fuelled model of finder.find WITH its
+                           shared parse cache (the definition Part 3 of Props/C08.lean is about), all language
+                           front ends; compared with the implementation on EVERY code base (also inside F-C08-1);
+                  mixed  = its language-mixing log (FindCache.mixLog; NoMix <=> mixed == []);
+                  cached_eq_ref = the conclusion of C08.find_cached_eq_findG_partial, evaluated;
+                  model  = CbiVerif.FindInst.findI = FindFold.findG (analyseEntry fs)  (C-family port, partial defs),
+                  spec   = stateless union, pp = the state-threading port PP.find.
 Property oracle (spec vs implementation): the property text applied to the implementation's own
                 runs — every run happens in a forked child process, so a single-command run
                 really starts from a fresh state:
@@ -236,6 +242,12 @@ def is_lang_case(case):
     """F-C08-1: a file that is not in the code base (so it is parsed on first inclusion, in the
     includer's language) is included by translation units of different language families"""
     desc = case["desc"]
+    if case.get("model_mixed") == []:
+        # the model of the shared parse cache ran on this very input — the full configuration and
+        # every single-command configuration — and logged no language-mixing event (FindCache.NoMix
+        # holds for all of them): by C08.find_cached_eq_findG_partial / cached_union_of_commands_partial
+        # all these runs are inside the proved part, so a discrepancy is NOT this finding
+        return False
     from_src = collections.defaultdict(set)
     cmds = [c for cs in desc["platforms"].values() for c in cs]
     fams = {c["file"]: _family(c["file"]) for c in cmds}
@@ -378,10 +390,11 @@ def shrink(desc, budget_s=20.0):
 # ---------------------------------------------------------------------------
 # one code base
 # ---------------------------------------------------------------------------
-def model_request(d, desc, res, select=(), pp=False):
+def model_request(d, desc, res, select=(), pp=False, lite=False):
     files = {os.path.join(d, p): t for p, t in desc["texts"].items()}
     return {"op": "c08find", "files": files, "codebase": res["codebase"],
-            "config": [{"name": p, "entries": es} for p, es in res["cfg"]], "select": list(select), "pp": pp}
+            "config": [{"name": p, "entries": es} for p, es in res["cfg"]], "select": list(select), "pp": pp,
+            "lite": lite}
 
 
 def model_view(m, d):
@@ -429,6 +442,14 @@ def check_codebase(ctx, drv, desc, origin, cli=False, only=None):
         ctx.count(key=f"stream={desc['stream']};platforms={len(plats)};commands={len(allcmds)}")
         for ft in desc["features"]:
             ctx.dist["feature:" + ft] += 1
+        # ---- the Lean models on the full configuration (asked first: the mixing log of the cached
+        # model is the decidable hypothesis NoMix of the theorems, evaluated on this input)
+        m = None
+        if drv is not None and "cfg" in full:
+            m = drv.ask(model_request(d, desc, full, pp=(desc["stream"] != "lang")))
+            if isinstance(m.get("mixed"), list):
+                ctx.dist["NoMix(full):" + ("holds" if not m["mixed"] else "fails")] += 1
+                rep["model_mixed_full"] = m["mixed"]
 
         def bad(what, **extra):
             c = dict(case, what=what, **extra)
@@ -449,6 +470,21 @@ def check_codebase(ctx, drv, desc, origin, cli=False, only=None):
         for (p, i) in allcmds:
             single[(p, i)] = isolated(child_find, d, [(p, [desc["platforms"][p][i]])], f"one_{p}_{i}")
             ctx.count(key="run:single")
+        # the decidable hypothesis of the composition theorems for the cached run, evaluated: the
+        # mixing logs of the full configuration and of every single-command configuration
+        if m is not None and isinstance(m.get("mixed"), list) and all("cfg" in s for s in single.values()):
+            allmix = list(m["mixed"])
+            for (p, i), s1 in single.items():
+                m1 = drv.ask(model_request(d, desc, s1, lite=True))
+                ctx.count(key="corr:c08find-cached-single")
+                allmix += m1.get("mixed") or []
+                c1 = model_view(m1.get("cached"), d)
+                ok1, why1 = same_attr(s1, c1)
+                if not ok1:
+                    ctx.corr_break("c08find:cached-single", {"desc": desc, "platform": p, "command": i, "why": why1},
+                                   _small(s1), _small(c1))
+            case["model_mixed"] = allmix
+            ctx.dist["NoMix(full and singles):" + ("holds" if not allmix else "fails")] += 1
         ok_singles = all("ok" in s for s in single.values())
         rep["single_fail"] = [f"{p}[{i}]: {s.get('exc')} {s.get('msg', '')[:80]}" for (p, i), s in single.items() if "ok" not in s]
         # success composes
@@ -590,9 +626,27 @@ def check_codebase(ctx, drv, desc, origin, cli=False, only=None):
                 used = {p for k, v in project_setmap(full["setmap"], X).items() if v for p in k.split(",") if p}
                 if set(legend.values()) != used:
                     bad(f"`cbi-tree -p {X}` legend {sorted(legend.values())} != platforms using a line {sorted(used)}", select=X, cli="tree")
-        # ---- model correspondence (C-family code bases only; the model has no Fortran/asm front end here)
-        if drv is not None and "cfg" in full and desc["stream"] != "lang":
-            m = drv.ask(model_request(d, desc, full, pp=True))
+        # ---- correspondence 1: the total model WITH the shared parse cache (every stream, every language)
+        if m is not None and "cached" in m:
+            cv = model_view(m.get("cached"), d)
+            okc, whyc = same_attr(full, cv)
+            mixed = m.get("mixed") or []
+            rep["cached_model"] = {"agrees_with_implementation": okc, "why": whyc, "exc": cv.get("exc"),
+                                   "mixing_events": [[os.path.relpath(x[0], d), x[1], x[2]] for x in mixed],
+                                   "equals_findG_of_cache_free_analysis": m.get("cached_eq_ref")}
+            if "ok" in cv and "per_platform" in rep:
+                for p in plats:
+                    rep["per_platform"][p]["cached_model"] = _lines(cv, by_platform(cv, p))
+            ctx.count(key="corr:c08find-cached")
+            if not okc:
+                ctx.corr_break("c08find:cached", {"desc": desc, "why": whyc}, _small(full), _small(cv))
+            if not mixed and m.get("cached_eq_ref") is not True:
+                ctx.notes.append(f"driver: NoMix but findC != findRefG on {origin} (contradicts find_cached_eq_findG_partial)")
+                ctx.corr_break("c08find:cached-vs-ref", {"desc": desc}, m.get("cached_eq_ref"), True)
+            if mixed:
+                ctx.dist["mixing:cached==findG" if m.get("cached_eq_ref") else "mixing:cached!=findG"] += 1
+        # ---- correspondence 2: the C-family instance of the generic fold (no Fortran/asm front end there)
+        if m is not None and desc["stream"] != "lang":
             mv, sv, pv = model_view(m.get("model"), d), model_view(m.get("spec"), d), model_view(m.get("pp"), d)
             ok, why = same_attr(full, mv)
             rep["model"] = {"agrees_with_implementation": ok, "why": why, "exc": mv.get("exc"),
@@ -619,15 +673,29 @@ def check_codebase(ctx, drv, desc, origin, cli=False, only=None):
             if not okp:
                 ctx.dist["pp.find!=findI"] += 1
                 ctx.notes.append(f"state-threading port PP.find differs from findI on {origin}: {whyp}")
+            # three-way: with no mixing event the cached total model and the generic-fold instance agree
+            if "cached" in m and not (m.get("mixed") or []):
+                okm, whym = same_attr(model_view(m.get("cached"), d), mv)
+                if not okm:
+                    ctx.dist["findC!=findI"] += 1
+                    ctx.notes.append(f"total cached model findC differs from findI on {origin}: {whym}")
             # the model of -p
             if "ok" in full and plats and "ok" in mv:
                 X = sorted(rng.sample(plats, rng.randint(1, len(plats))))
-                mx = model_view(drv.ask(model_request(d, desc, full, select=X)).get("model"), d)
+                mxr = drv.ask(model_request(d, desc, full, select=X))
+                mx = model_view(mxr.get("model"), d)
                 want = {t for t in triples(full) if t[2] in X}
                 ctx.count(key="corr:c08find-select")
                 if ("ok" not in mx or triples(mx) != want) and not known_class(ctx, case):
                     ctx.corr_break("c08find-select", {"desc": desc, "select": X}, sorted(want)[:20],
                                    sorted(triples(mx))[:20] if "ok" in mx else mx)
+                # … and of the cached model: under NoMix (full and selected run) it is the projection
+                cx = model_view(mxr.get("cached"), d)
+                if not (m.get("mixed") or []) and not (mxr.get("mixed") or []):
+                    ctx.count(key="corr:c08find-cached-select")
+                    if "ok" not in cx or triples(cx) != want:
+                        ctx.corr_break("c08find-cached-select", {"desc": desc, "select": X}, sorted(want)[:20],
+                                       sorted(triples(cx))[:20] if "ok" in cx else cx)
         rep["state_matters"] = state_matters
     return rep
 
@@ -711,10 +779,14 @@ def run(ctx, drv):
     ctx.rule = (
         "generated code bases (2-4 shared headers with guards / #pragma once / none, nested and computed includes, the "
         "same header name in two -I directories, -include files, headers outside the code base, function-like macros "
-        "in #if, -D sets differing per command, multi-pass compilers and a user-defined extend_match compiler), 1-4 "
+        "in #if, -D sets differing per command, multi-pass compilers and a user-defined extend_match compiler; a stream "
+        "with C / Fortran / assembler includers of one header that is outside or inside the code base and may include "
+        "a second foreign file), 1-4 "
         "platforms; every analysis runs in its own forked process. Per code base: full run vs the union of all "
         "single-command runs, <=7 (quick) / <=15 (thorough) -p subsets through the real _main/_tree, permutations of "
-        "commands and platforms, random sub-configurations, load_database whole vs per command, the Lean model. "
+        "commands and platforms, random sub-configurations, load_database whole vs per command, the Lean models (the "
+        "total model with the shared parse cache on the full and on every single-command configuration, the "
+        "generic-fold instance on the full configuration and one -p selection). "
         "Non-trivial = distinct code bases with >= 2 commands in which two single-command runs visit a common file "
         "with different active/inactive patterns (so per-command state decides the outcome)."
     )
@@ -722,14 +794,18 @@ def run(ctx, drv):
         "a 'compile command analysed alone from a fresh state' is observed as: the tool run in a newly forked process "
         "on a configuration holding that single database command (all its compiler passes)",
         "attribution is compared per parse-tree node (kind, physical lines, platform set), which implies per line",
-        "the Lean model covers the C-family front end only; Fortran/asm sources appear only in the F-C08-1 stream, "
-        "which is checked on the implementation alone",
+        "the generic-fold instance findI covers the C-family front end only; the total model with the shared parse "
+        "cache (FindCache.findC, the subject of the cache-transparency theorems) has all three front ends and is "
+        "compared with the implementation on every stream, including the F-C08-1 stream (it reproduces the finding)",
+        "F-C08-1 is accepted as the explanation of a discrepancy only if the cached model logged a language-mixing "
+        "event on that input (NoMix fails); with NoMix the run is inside the proved part and a discrepancy is a violation",
         "warnings are compared with the model (correspondence) but a change of warnings alone is not counted as a "
         "violation of C08",
         "jsonschema's re-validation of codebasin's static schema files against the meta-schema is memoised by the "
         "harness (it dominated run time); the validation of the instances is unchanged",
-        "the model does not thread the parse cache (ParserState.trees); the state-threading port PP.find is run on "
-        "every input as well and must agree with it (distribution key 'pp.find!=findI' counts disagreements)",
+        "findI does not thread the parse cache (ParserState.trees); findC does, and C08.find_cached_eq_findG_partial "
+        "proves the two forms equal under NoMix; the state-threading port PP.find is run as well (distribution keys "
+        "'pp.find!=findI', 'findC!=findI' count disagreements between the models)",
     ]
     # corpus first
     for f in sorted((core.VERIF / "corpus" / "C08").glob("*.json")):
